@@ -1,8 +1,8 @@
 """C05 — mutations through child views propagate to every enclosing view."""
 from hist import *  # noqa
 
-THEOREMS = ["C05_propagate", "C05_parent_reads_child", "C05_frame"]
-PARTIAL = ["C05_propagate is proved for one hook level (child of a top-level view); deeper chains repeat the same step in ModelStore.set_backing and are covered by the correspondence on chains up to depth 4 with every held view compared after every command"]
+THEOREMS = ["C05_propagate", "C05_parent_reads_child", "C05_frame", "C05_container_child", "C05_vector_child", "C05_list_child"]
+PARTIAL = ["store level: one hook level (C05_propagate / C05_parent_reads_child / C05_frame); value level: writing a child's new backing into a container / vector / list parent yields the parent's updated value with the fresh root and encoding, composable along any chain (C05_*_child); that the Python hook chain performs exactly these writes for every set of simultaneously held views, in any order, is tied by the correspondence (random interleavings over nested views, every enclosing view compared with the shadow value after each step)"]
 COQ_IMPORTS = ["RM.Types", "RM.ModelStore", "RMR.RunH"]
 COQ_FN = "RunH.run"
 COQ_CASE_TY = "RunH.case"
